@@ -391,19 +391,8 @@ func predict(c sh.Case, tr *sh.Trace) *prediction {
 				if e.Role != "master" {
 					continue
 				}
-				if e.Kind == "connect" {
-					// The session already has a connection on this slice, so it does not take another one from the pool:
-					// a new backend connection (not a health-check or KILL helper) is DirectConnection.writePacket
-					// reconnecting after "broken pipe", which leaves the DirectConnection flagged closed.
-					if cl := cls[sh.Key(e)]; heldBefore[e.Slice] && m.conns[e.Slice] != nil && (cl == "session" || cl == "bare") {
-						m.conns[e.Slice].closed = true
-						m.conns[e.Slice].conn = sh.Key(e) // the pooled connection now sits on the new socket
-					}
-					continue
-				}
 				if e.Kind == "initdb" && c.KeepSession && m.conns[e.Slice] == nil && cls[sh.Key(e)] == "session" {
 					m.conns[e.Slice] = &txConn{conn: sh.Key(e)}
-					heldBefore[e.Slice] = true // a later connect on this slice within the same command is a reconnect
 					continue
 				}
 				if e.Kind != "query" {
@@ -425,7 +414,6 @@ func predict(c sh.Case, tr *sh.Trace) *prediction {
 					case tc.conn != sh.Key(e):
 						m.conns[e.Slice] = &txConn{conn: sh.Key(e)}
 					}
-					heldBefore[e.Slice] = true // a later connect on this slice within the same command is a reconnect
 				}
 			}
 			if st.FaultFired && (st.Cmd.F.Action == sh.ActCloseBefore || st.Cmd.F.Action == sh.ActCloseAfter) {
@@ -433,6 +421,22 @@ func predict(c sh.Case, tr *sh.Trace) *prediction {
 					if tc.conn == st.FaultConn {
 						tc.closeFaulted = true
 					}
+				}
+			}
+			// The session has a connection on the slice, so it does not take another one from the pool: a further
+			// backend connection accepted on that master while the command ran (not a health-check or KILL helper) is
+			// DirectConnection.writePacket reconnecting after "broken pipe", which leaves the connection flagged closed.
+			for _, nk := range st.NewConns {
+				i := strings.Index(nk.Server, "/")
+				if i < 0 || nk.Server[i+1:] != "master" {
+					continue
+				}
+				if cl := cls[nk]; cl != "session" && cl != "bare" {
+					continue
+				}
+				if tc := m.conns[nk.Server[:i]]; tc != nil && tc.conn != nk && nk.ID > tc.conn.ID {
+					tc.closed = true
+					tc.conn = nk // the pooled connection now sits on the new socket
 				}
 			}
 		}
